@@ -167,6 +167,12 @@ def L(cid: int):  # noqa: N802
         f"class A{u}:\n    pass\n\n\nclass B{u}:\n    pass\n\n\nclass D{u}(A{u}, B{u}):\n    pass\n",
         {"classes": {f"A{u}": {"superclasses": []}, f"B{u}": {"superclasses": []}, f"D{u}": {"superclasses": [f"@MODQ@.A{u}", f"@MODQ@.B{u}"]}}},
     )
+    # the same SHORT class names in every module that holds this letter: only the qualified names tell them apart
+    letters["bases_same_short_name"] = (
+        f"class SameBase:\n    pass\n\n\nclass SameMid(SameBase):\n    pass\n\n\nclass DS{u}(SameMid):\n    pass\n\n\ndef mk{u}() -> SameBase:\n    made = SameMid()\n    other = SameBase()\n    return made or other\n",
+        # (the names are used in expressions too: only then they enter the analyser's package-wide alias table)
+        {"classes": {"SameBase": {"superclasses": []}, "SameMid": {"superclasses": ["@MODQ@.SameBase"]}, f"DS{u}": {"superclasses": ["@MODQ@.SameMid"]}}, "dontcare_prefixes": [f"mk{u}"]},
+    )
     letters["bases_imported"] = (
         f"class D{u}(SupBase):\n    pass\n\n\nclass E{u}(AliasedBase, support.SupOther):\n    pass\n\n\nclass F{u}(collections.OrderedDict):\n    pass\n",
         {"classes": {f"D{u}": {"superclasses": ["vpkg.support.SupBase"]}, f"E{u}": {"superclasses": ["vpkg.support.SupBase2", "vpkg.support.SupOther"]}, f"F{u}": {"superclasses": ["collections.OrderedDict"]}}},
@@ -217,7 +223,7 @@ def run(rep: Report, tier: str, seed: int) -> None:
     uid = itertools.count(1)
     for a in LETTER_NAMES:
         units.append((next(uid), (a,)))
-    pair_letters = LETTER_NAMES if tier == "thorough" else ["func", "class", "nested_attrs", "bases_local", "bases_imported", "enum", "enum_in_class", "property_setter", "private_class", "nested2"]
+    pair_letters = LETTER_NAMES if tier == "thorough" else ["func", "class", "nested_attrs", "bases_local", "bases_same_short_name", "bases_imported", "enum", "enum_in_class", "property_setter", "private_class", "nested2"]
     for a, b in itertools.permutations(pair_letters, 2):
         units.append((next(uid), (a, b)))
     rep.rule = (
